@@ -1,13 +1,39 @@
 """C01 - mixing, splitting and separating streams conserves every chemical."""
 from harness.props import streams_common as sc
 
-FOCUS = ['mix_from', 'split_to', 'separate_out', 'copy_flow', 'scale', 'empty']
+FOCUS = ['mix_from', 'split_to', 'separate_out', 'copy_flow', 'copy_flow_multi', 'scale', 'empty']
 SHAPING = ['set_flow', 'set_flow', 'set_phases', 'set_P', 'set_T', 'set_phase']
 MC = dict(names=3, ops='c_OpsC01', phasesets='c_PhaseSets', depth='Depth5', depth_quick='Depth4')
 
 
+def alias_paths(rng, n):
+    """Directed schedules: the receiver's flow data appears among the inlets through other stream objects (flow proxies, proxies,
+    links), once or several times, together with inlets of its own."""
+    out = []
+    for _ in range(n):
+        x, y, w = rng.sample(['a', 'b', 'e'], 3)  # same package
+        z = rng.choice(['c', w, w])                 # another package (other chemical order) or the same one
+        ops = [('construct', dict(x=x, k=rng.choice(['s', 's', 'm']), price=0, cf=0)), ('construct', dict(x=z, k='s', price=0, cf=0))]
+        ph = 'l'
+        ops += [('set_flow', dict(x=x, p=ph, c=1, v=4 * rng.randint(1, 4))), ('set_flow', dict(x=x, p=ph, c=2, v=4 * rng.randint(0, 3))),
+                ('set_flow', dict(x=z, p='l', c=1, v=4 * rng.randint(1, 4))), ('set_flow', dict(x=z, p='l', c=2, v=4 * rng.randint(0, 2)))]
+        how = rng.choice(['flow_proxy', 'proxy', 'link'])
+        if how == 'link':
+            ops += [('construct', dict(x=y, k='s', price=0, cf=0)), ('link_with', dict(d=y, x=x, flow=True, phase=True, TP=rng.random() < 0.5))]
+        else:
+            ops.append((how, dict(d=y, x=x)))
+        r = rng.choice([x, y])
+        ins = rng.choice([[y, y, z], [x, y, z], [y, z, y], [y, x], [y, y], [z, y, x, y], [y]])
+        ops.append(('mix_from', dict(r=r, ins=ins, eb=False)))
+        if rng.random() < 0.5:
+            ops.append(('split_to', dict(x=r, y=z, z=z if False else rng.choice([x, y]), q=[[1, 2]], eb=False, scalar=True)))
+        ops.append(('separate_out', dict(x=r, y=z)))
+        out.append([dict(op=o, a=a) for o, a in ops])
+    return out
+
+
 def run(ctx):
-    return sc.run(ctx, 'C01', MC, FOCUS, SHAPING)
+    return sc.run(ctx, 'C01', MC, FOCUS, SHAPING, extra_paths=alias_paths, extra_universe='big')
 
 
 def replay(ctx, data):
